@@ -35,9 +35,7 @@ class YowNoiseLayer(YowLayer):
 
     def __init__(self):
         super(YowNoiseLayer, self).__init__()
-        self._wa_noiseprotocol = WANoiseProtocol(
-            4, 0, protocol_state_callbacks=self._on_protocol_state_changed
-        )  # type: WANoiseProtocol
+        self._wa_noiseprotocol = self._new_noiseprotocol()  # type: WANoiseProtocol
 
         self._handshake_worker = None
         self._stream = BlockingQueueSegmentedStream()  # type: BlockingQueueSegmentedStream
@@ -50,9 +48,19 @@ class YowNoiseLayer(YowLayer):
     def __str__(self):
         return "Noise Layer"
 
+    def _new_noiseprotocol(self):
+        """one protocol object per connection attempt: what a worker of an abandoned attempt still does to its
+        own object (finish, fail) must not reach the attempt that replaced it"""
+        holder = []
+        protocol = WANoiseProtocol(
+            4, 0, protocol_state_callbacks=lambda state: self._on_protocol_state_changed(state, holder[0])
+        )
+        holder.append(protocol)
+        return protocol
+
     @EventCallback(YowNetworkLayer.EVENT_STATE_DISCONNECTED)
     def on_disconnected(self, event):
-        self._wa_noiseprotocol.reset()
+        self._wa_noiseprotocol = self._new_noiseprotocol()
         # a handshake worker that was cut off before the server answered is still waiting on the segment queue;
         # retire the queue and the stream with it, otherwise it would consume the next attempt's server hello
         self._incoming_segments_queue = Queue.Queue()
@@ -117,16 +125,22 @@ class YowNoiseLayer(YowLayer):
             )
             if not self._in_handshake():
                 logger.debug("Performing handshake [username= %d, passive=%s]" % (username, passive) )
+                protocol = self._wa_noiseprotocol
                 self._handshake_worker = WANoiseProtocolHandshakeWorker(
-                    self._wa_noiseprotocol, self._stream, client_config, local_static, remote_static,
-                    self.on_handshake_finished
+                    protocol, self._stream, client_config, local_static, remote_static,
+                    lambda e=None: self.on_handshake_finished(e, protocol)
                 )
                 logger.debug("Starting handshake worker")
-                self._stream.set_events_callback(self._handle_stream_event)
+                # the worker is tied to the stream and the queue of this attempt, whatever replaces them later
+                stream, queue = self._stream, self._incoming_segments_queue
+                stream.set_events_callback(lambda event: self._handle_stream_event(event, stream, queue))
                 self._handshake_worker.start()
 
-    def on_handshake_finished(self, e=None):
-        # type: (Exception) -> None
+    def on_handshake_finished(self, e=None, protocol=None):
+        # type: (Exception, WANoiseProtocol) -> None
+        if protocol is not None and protocol is not self._wa_noiseprotocol:
+            # the attempt this worker belonged to was abandoned
+            return
         if e is not None:
             self.emitEvent(YowLayerEvent(self.EVENT_HANDSHAKE_FAILED, reason=e))
             data=WriteEncoder(TokenDictionary()).protocolTreeNodeToBytes(
@@ -142,7 +156,10 @@ class YowNoiseLayer(YowLayer):
         """
         return self._wa_noiseprotocol.state == WANoiseProtocol.STATE_HANDSHAKE
 
-    def _on_protocol_state_changed(self, state):
+    def _on_protocol_state_changed(self, state, protocol=None):
+        if protocol is not None and protocol is not self._wa_noiseprotocol:
+            # the attempt this protocol object belonged to was abandoned
+            return
         if state == WANoiseProtocol.STATE_TRANSPORT:
             if self._rs != self._wa_noiseprotocol.rs:
                 config = self._profile.config
@@ -151,11 +168,18 @@ class YowNoiseLayer(YowLayer):
                 self._rs = self._wa_noiseprotocol.rs
             self._flush_incoming_buffer()
 
-    def _handle_stream_event(self, event):
+    def _handle_stream_event(self, event, stream=None, queue=None):
+        if stream is None:
+            stream = self._stream
+        if queue is None:
+            queue = self._incoming_segments_queue
         if event == BlockingQueueSegmentedStream.EVENT_WRITE:
-            self.toLower(self._stream.get_write_segment())
+            segment = stream.get_write_segment()
+            if stream is self._stream:
+                self.toLower(segment)
+            # else: written by the worker of an abandoned attempt, not for the current connection
         elif event == BlockingQueueSegmentedStream.EVENT_READ:
-            self._stream.put_read_segment(self._incoming_segments_queue.get(block=True))
+            stream.put_read_segment(queue.get(block=True))
 
     def send(self, data):
         """
